@@ -410,7 +410,15 @@ where
     let l = if a > 20 { 1 } else { g.range(1, 6) };
     let eps = g.uniform(0.05, 0.4);
     // values that are not representable in the narrower of the two float types involved
-    let inits: Vec<Vec<T>> = (0..n_chains).map(|_| (0..dim).map(|_| T::of(g.normal())).collect()).collect();
+    let mut inits: Vec<Vec<T>> = (0..n_chains).map(|_| (0..dim).map(|_| T::of(g.normal())).collect()).collect();
+    // one chain of a batch may be beyond repair (a NaN coordinate: it can never move); the others
+    // still get their n_discard + n_collect transitions
+    if n_chains >= 2 && g.chance(0.12) {
+        let c = g.below(n_chains);
+        let j = g.below(dim);
+        inits[c][j] = T::of(f64::NAN);
+        rep.count("hmc_histories_with_one_chain_started_at_NaN");
+    }
     let target = DiagGauss::new((0..dim).map(|i| 0.5 + i as f64 * 0.3).collect(), vec![0.0; dim]);
     // the progress-reporting entry point makes the same promise; C10 states it for n_collect >= 4
     // (with a single kept draw the diagnostics at the end of run_progress panic: outside every
